@@ -305,6 +305,10 @@ pub enum NearKind {
     FieldMode(usize, u8),
     /// flip this bit
     Bit(usize),
+    /// the proof re-encoded for another field extension degree: the extension byte of the context is set and
+    /// every extension-field element of every component is widened with zero coefficients (or narrowed),
+    /// with all length prefixes fixed up, so that the result is structurally valid for the claimed extension
+    Reextend(u8),
     /// another (valid) FRI option set in the context: folding factor 2^f, remainder degree 2^r - 1, with the
     /// number of FRI layers and of FRI commitments adjusted to what the new schedule prescribes (by
     /// repeating / dropping layers), so that the proof stays structurally consistent
@@ -339,6 +343,13 @@ fn near_one<B: FA, H: ElementHasher<BaseField = B> + Send + Sync>(c: &NearCase, 
             obs.label("near=bit");
             apply(&base.bytes, &base.fields, &Mutation::FlipBit { bit: *bit }).0
         },
+        NearKind::Reextend(deg) => {
+            obs.label("near=re-extend");
+            match reextend::<B>(&base, *deg) {
+                Some(b) => b,
+                None => return Ok(()),
+            }
+        },
         NearKind::Schedule(f, r) => {
             obs.label("near=schedule");
             match reschedule(&base, *f, *r) {
@@ -359,6 +370,59 @@ fn near_one<B: FA, H: ElementHasher<BaseField = B> + Send + Sync>(c: &NearCase, 
         },
     };
     hostile::<B, H>(&bytes, &[base.desc.clone()], obs)
+}
+
+/// re-encodes the proof for another extension degree (see NearKind::Reextend)
+fn reextend<B: FA>(base: &Baseline, new_deg: u8) -> Option<Vec<u8>> {
+    let d0 = base.opts.ext as usize;
+    let d1 = new_deg.clamp(1, 3) as usize;
+    if d0 == d1 {
+        return None;
+    }
+    let eb = B::FP.elem_bytes;
+    let is_target = |path: &str| -> bool {
+        path == "trace_queries[1].values"
+            || path == "constraint_queries.values"
+            || path == "ood.trace_states"
+            || path == "ood.lagrange"
+            || path == "ood.evaluations"
+            || path == "fri.remainder"
+            || (path.starts_with("fri.layer[") && path.ends_with(".values"))
+    };
+    let recode = |bytes: &[u8]| -> Vec<u8> {
+        let mut out = Vec::with_capacity(bytes.len() / d0 * d1);
+        for el in bytes.chunks(eb * d0) {
+            if el.len() != eb * d0 {
+                out.extend_from_slice(el);
+                continue;
+            }
+            for k in 0..d1 {
+                if k < d0 {
+                    out.extend_from_slice(&el[k * eb..(k + 1) * eb]);
+                } else {
+                    out.extend(std::iter::repeat(0u8).take(eb));
+                }
+            }
+        }
+        out
+    };
+    let mut out = vec![];
+    for f in &base.fields {
+        let bytes = &base.bytes[f.off..f.off + f.len];
+        if f.path == "context.options.extension" {
+            out.push(d1 as u8);
+        } else if let Some(target) = f.path.strip_suffix(".len").filter(|t| is_target(t)) {
+            let data = base.fields.iter().find(|x| x.path == target && x.kind == Kind::Data)?;
+            let hdr = base.fields.iter().any(|x| x.path == format!("{target}.frame_size")) as usize;
+            let new_len = (recode(&base.bytes[data.off..data.off + data.len]).len() + hdr) as u64;
+            out.extend_from_slice(&new_len.to_le_bytes()[..f.len]);
+        } else if is_target(&f.path) && f.kind == Kind::Data {
+            out.extend(recode(bytes));
+        } else {
+            out.extend_from_slice(bytes);
+        }
+    }
+    Some(out)
 }
 
 /// rewrites the proof for another FRI schedule (see NearKind::Schedule)
@@ -468,6 +532,9 @@ pub fn run(run: &mut Run) {
                 cases.push(NearCase { shape: s.clone(), kind: NearKind::FieldMode(idx, mode) });
             }
         }
+        for deg in 1..=3u8 {
+            cases.push(NearCase { shape: s.clone(), kind: NearKind::Reextend(deg) });
+        }
         for f in 1..=4u8 {
             for r in 0..=8u8 {
                 cases.push(NearCase { shape: s.clone(), kind: NearKind::Schedule(f, r) });
@@ -481,7 +548,7 @@ pub fn run(run: &mut Run) {
     }
     run.enumerate(
         "near-valid-exhaustive",
-        "for a basket of small honest proofs (three fields, with and without auxiliary segment): truncation at every offset, every byte replaced by 0x00/0x01/0x7f/0x80/0xff, every length/count/size/scalar field set to 0/1/max-1/max/+1/-1/*2/a fixed pattern, every other valid FRI option pair (folding 2..16 x remainder degree 0..255) written into the context with the layer and commitment counts adjusted to the new schedule (thorough: also every single-bit flip); non-trivial = the bytes parsed",
+        "for a basket of small honest proofs (three fields, with and without auxiliary segment): truncation at every offset, every byte replaced by 0x00/0x01/0x7f/0x80/0xff, every length/count/size/scalar field set to 0/1/max-1/max/+1/-1/*2/a fixed pattern, the proof re-encoded for every other field extension degree (all extension-field elements widened / narrowed, prefixes fixed), every other valid FRI option pair (folding 2..16 x remainder degree 0..255) written into the context with the layer and commitment counts adjusted to the new schedule (thorough: also every single-bit flip); non-trivial = the bytes parsed",
         true,
         cases.into_iter(),
         |c: &NearCase, obs: &mut Obs| crate::dispatch!(c.shape.field, c.shape.hasher, near_one, c, obs),
